@@ -705,6 +705,21 @@ class _NameConst(ast.NodeTransformer):
         return n
 
 
+def _flatten_pairs(t, v):
+    """((a, b), c) = ((x, y), z)  ->  [(a, x), (b, y), (c, z)]   (targets plain names; shapes must agree)"""
+    if isinstance(t, ast.Name):
+        return [(t, v)]
+    if isinstance(t, (ast.Tuple, ast.List)) and isinstance(v, (ast.Tuple, ast.List)) and len(t.elts) == len(v.elts) and not any(isinstance(x, ast.Starred) for x in list(t.elts) + list(v.elts)):
+        out = []
+        for a, b in zip(t.elts, v.elts):
+            r = _flatten_pairs(a, b)
+            if r is None:
+                return None
+            out += r
+        return out
+    return None
+
+
 def split_tuple_assigns(stmts):
     """a, b = (x, y) -> a = x; b = y  when a, b are plain names that x, y do not mention (recursively through blocks)"""
     out = []
@@ -716,16 +731,9 @@ def split_tuple_assigns(stmts):
         if isinstance(st, ast.Try):
             for h in st.handlers:
                 h.body = split_tuple_assigns(h.body)
-        if (
-            isinstance(st, ast.Assign)
-            and len(st.targets) == 1
-            and isinstance(st.targets[0], ast.Tuple)
-            and isinstance(st.value, ast.Tuple)
-            and len(st.targets[0].elts) == len(st.value.elts)
-            and all(isinstance(t, ast.Name) for t in st.targets[0].elts)
-            and not any(isinstance(n, ast.Name) and n.id in {t.id for t in st.targets[0].elts} for v in st.value.elts for n in ast.walk(v))
-        ):
-            for t, v in zip(st.targets[0].elts, st.value.elts):
+        pairs = _flatten_pairs(st.targets[0], st.value) if isinstance(st, ast.Assign) and len(st.targets) == 1 and isinstance(st.targets[0], ast.Tuple) and isinstance(st.value, ast.Tuple) else None
+        if pairs is not None and not any(isinstance(n, ast.Name) and n.id in {t.id for t, _ in pairs} for _, v in pairs for n in ast.walk(v)):
+            for t, v in pairs:
                 out.append(ast.copy_location(ast.Assign(targets=[ast.Name(id=t.id, ctx=ast.Store())], value=v), st))
         else:
             out.append(st)
@@ -863,6 +871,22 @@ def namedtuple_fields(modules, log):
             fn.body = [R().visit(b) for b in fn.body]
             ast.fix_missing_locations(fn)
             log.append(f"namedtuple fields {mi.name}:{fn.name} {sorted(binds)}")
+    # a record that is returned (and unpacked or indexed by its receiver) is the tuple of its fields
+    for mi in modules.values():
+        for fn in [n for n in ast.walk(mi.tree) if isinstance(n, (ast.FunctionDef, ast.AsyncFunctionDef))]:
+            for r in [n for n in ast.walk(fn) if isinstance(n, ast.Return) and isinstance(n.value, ast.Call) and isinstance(n.value.func, ast.Name) and n.value.func.id in classes]:
+                c = r.value
+                fields = classes[c.func.id]
+                if any(isinstance(a, ast.Starred) for a in c.args) or any(k.arg is None for k in c.keywords):
+                    continue
+                vals = list(c.args) + [None] * (len(fields) - len(c.args))
+                for k in c.keywords:
+                    if k.arg in fields:
+                        vals[fields.index(k.arg)] = k.value
+                if len(vals) == len(fields) and all(v is not None for v in vals):
+                    r.value = ast.copy_location(ast.Tuple(elts=vals, ctx=ast.Load()), c)
+                    ast.fix_missing_locations(r)
+                    log.append(f"namedtuple return {mi.name}:{fn.name}:{r.lineno} {c.func.id}(...) -> tuple")
 
 
 def deque_to_index(fn, log=None, where=""):
